@@ -502,13 +502,13 @@ class Tokenizer:
                     None,
                     self,
                 )
-        if lines[0] and not re.match(Re.WHITESPACE, lines[0]):
+        if lines[0] and not re.fullmatch(Re.WHITESPACE, lines[0]):
             raise JMCSyntaxException(
                 f"Expected whitespaces line after open backtick(`) (got {lines[0]!r})",
                 None,
                 self,
             )
-        if lines[-1] and not re.match(Re.WHITESPACE, lines[-1]):
+        if lines[-1] and not re.fullmatch(Re.WHITESPACE, lines[-1]):
             raise JMCSyntaxException(
                 f"Expected whitespaces line before close backtick(`) (got {lines[-1]!r})",
                 None,
